@@ -161,6 +161,8 @@ struct Cmp {
     pass: bool,
     got: Out,
     want: Out,
+    /// violation kind used in the signature when the comparison fails
+    kind: &'static str,
 }
 fn eq(label: &'static str, got: Out, want: Out) -> Cmp {
     Cmp {
@@ -168,6 +170,7 @@ fn eq(label: &'static str, got: Out, want: Out) -> Cmp {
         pass: got == want,
         got,
         want,
+        kind: if label.starts_with("const/") { "wrong" } else { "mismatch" },
     }
 }
 fn judged(label: &'static str, pass: bool, got: Out, want: &str) -> Cmp {
@@ -176,6 +179,80 @@ fn judged(label: &'static str, pass: bool, got: Out, want: &str) -> Cmp {
         pass,
         got,
         want: Out::S(want.to_string()),
+        kind: if label.starts_with("const/") { "wrong" } else { "mismatch" },
+    }
+}
+
+// ---- re-entrancy probe for `Sum<&T>` / `Product<&T>` ------------------------------------------
+//
+// `Iterator::sum` / `Iterator::product` are provided methods that an iterator may override. The
+// probe iterator counts how often they are entered *while no item has been consumed*. An
+// implementation of `Sum<&T> for T` that forwards to `iter.sum()` re-enters itself with the same
+// unconsumed iterator for ever (a stack overflow or, with tail calls, an endless loop); the probe
+// turns that into a panic after `PROBE_LIMIT` re-entries, i.e. into a deterministic observation
+// that needs no wall clock. Implementations that fold, loop, or adapt the iterator
+// (`iter.copied().sum()`) never enter the probe's `sum` more than once.
+const PROBE_LIMIT: u32 = 64;
+const PROBE_MSG: &str = "C10-PROBE: Iterator::sum/product re-entered without consuming an item";
+struct Probe<'a, F> {
+    it: std::slice::Iter<'a, F>,
+    reentered: u32,
+    consumed: u32,
+}
+impl<'a, F> Probe<'a, F> {
+    fn new(s: &'a [F]) -> Self {
+        Probe { it: s.iter(), reentered: 0, consumed: 0 }
+    }
+    fn enter(&mut self) {
+        if self.consumed == 0 {
+            self.reentered += 1;
+            if self.reentered > PROBE_LIMIT {
+                panic!("{}", PROBE_MSG);
+            }
+        }
+    }
+}
+impl<'a, F> Iterator for Probe<'a, F> {
+    type Item = &'a F;
+    fn next(&mut self) -> Option<&'a F> {
+        self.consumed += 1;
+        self.it.next()
+    }
+    fn sum<S: std::iter::Sum<&'a F>>(mut self) -> S {
+        self.enter();
+        S::sum(self)
+    }
+    fn product<S: std::iter::Product<&'a F>>(mut self) -> S {
+        self.enter();
+        S::product(self)
+    }
+}
+/// Runs `f`; `Err(())` iff the probe fired. Other panics propagate unchanged.
+fn probed<T>(f: impl FnOnce() -> T) -> Result<T, ()> {
+    match std::panic::catch_unwind(std::panic::AssertUnwindSafe(f)) {
+        Ok(v) => Ok(v),
+        Err(payload) => {
+            let fired = payload.downcast_ref::<String>().map(|s| s == PROBE_MSG).unwrap_or(false)
+                || payload.downcast_ref::<&str>().map(|s| *s == PROBE_MSG).unwrap_or(false);
+            if fired {
+                Err(())
+            } else {
+                std::panic::resume_unwind(payload)
+            }
+        }
+    }
+}
+fn nonterminating(label: &'static str) -> Cmp {
+    Cmp {
+        label,
+        pass: false,
+        got: Out::S(format!(
+            "unbounded self-recursion: the implementation called Iterator::{} on the unconsumed iterator {} times in a row (never returns: stack overflow or endless loop)",
+            if label.starts_with("sum") { "sum" } else { "product" },
+            PROBE_LIMIT
+        )),
+        want: Out::S("terminates with the sum/product of the items".into()),
+        kind: "nontermination",
     }
 }
 
@@ -1024,6 +1101,26 @@ fn rf_half_neg(rf: &RefField, h: &[BigUint]) -> El {
     h.iter().map(|c| f.neg(c)).collect()
 }
 
+/// Element-valued result: compared through the canonical encoding and, when that agrees, also
+/// through the library's own equality against the canonical element (a result whose encoding is
+/// right but which the type itself does not consider equal to that element is an unreduced
+/// internal representation).
+fn el_cmp<F: Lf>(out: &mut Vec<Cmp>, label: &'static str, res: F, want: &El) {
+    let c = eq(label, Out::E(res.to_c()), Out::E(want.clone()));
+    let ok = c.pass;
+    out.push(c);
+    if ok {
+        let same = res == F::from_c(want);
+        out.push(Cmp {
+            label: intern(format!("{label}~eq")),
+            pass: same,
+            got: Out::S(format!("result == canonical element: {same} (result {res:?})")),
+            want: Out::S("the result equals (==) the element decoded from the canonical encoding of the expected value".into()),
+            kind: "noncanonical",
+        });
+    }
+}
+
 /// Operations that exist for every type (`ff::Field` surface + adapter hooks).
 fn exec_field<F: Lf>(op: &str, a: &[Arg]) -> Option<Vec<Cmp>> {
     let rf = F::rf();
@@ -1032,15 +1129,15 @@ fn exec_field<F: Lf>(op: &str, a: &[Arg]) -> Option<Vec<Cmp>> {
         ($name:literal, $nr:literal, $na:literal, $nar:literal, $op:tt, $opa:tt, $rfop:ident) => {{
             let (x, y) = (a_el(a, 0), a_el(a, 1));
             let (lx, ly) = (F::from_c(x), F::from_c(y));
-            let want = Out::E(rf.$rfop(x, y));
-            out.push(eq($name, Out::E((lx $op ly).to_c()), want.clone()));
-            out.push(eq($nr, Out::E((lx $op &ly).to_c()), want.clone()));
+            let want = rf.$rfop(x, y);
+            el_cmp::<F>(&mut out, $name, lx $op ly, &want);
+            out.push(eq($nr, Out::E((lx $op &ly).to_c()), Out::E(want.clone())));
             let mut t = lx;
             t $opa ly;
-            out.push(eq($na, Out::E(t.to_c()), want.clone()));
+            el_cmp::<F>(&mut out, $na, t, &want);
             let mut t = lx;
             t $opa &ly;
-            out.push(eq($nar, Out::E(t.to_c()), want));
+            out.push(eq($nar, Out::E(t.to_c()), Out::E(want)));
         }};
     }
     match op {
@@ -1055,15 +1152,15 @@ fn exec_field<F: Lf>(op: &str, a: &[Arg]) -> Option<Vec<Cmp>> {
         }
         "neg" => {
             let x = a_el(a, 0);
-            out.push(eq("neg", Out::E((-F::from_c(x)).to_c()), Out::E(rf.neg(x))));
+            el_cmp::<F>(&mut out, "neg", -F::from_c(x), &rf.neg(x));
         }
         "square" => {
             let x = a_el(a, 0);
-            out.push(eq("square", Out::E(F::from_c(x).square().to_c()), Out::E(rf.square(x))));
+            el_cmp::<F>(&mut out, "square", F::from_c(x).square(), &rf.square(x));
         }
         "double" => {
             let x = a_el(a, 0);
-            out.push(eq("double", Out::E(F::from_c(x).double().to_c()), Out::E(rf.double(x))));
+            el_cmp::<F>(&mut out, "double", F::from_c(x).double(), &rf.double(x));
         }
         "cube" => {
             let x = a_el(a, 0);
@@ -1071,8 +1168,12 @@ fn exec_field<F: Lf>(op: &str, a: &[Arg]) -> Option<Vec<Cmp>> {
         }
         "invert" => {
             let x = a_el(a, 0);
-            let got = ct(F::from_c(x).invert()).map(|v| v.to_c());
-            out.push(eq("invert", Out::O(got), Out::O(rf.invert(x))));
+            let got = ct(F::from_c(x).invert());
+            let want = rf.invert(x);
+            match (got, &want) {
+                (Some(g), Some(w)) => el_cmp::<F>(&mut out, "invert", g, w),
+                (g, _) => out.push(eq("invert", Out::O(g.map(|v| v.to_c())), Out::O(want))),
+            }
         }
         "is_zero" => {
             let x = a_el(a, 0);
@@ -1090,11 +1191,17 @@ fn exec_field<F: Lf>(op: &str, a: &[Arg]) -> Option<Vec<Cmp>> {
             if op == "sum" {
                 let want = Out::E(xs.iter().fold(rf.zero(), |acc, x| rf.add(&acc, x)));
                 out.push(eq("sum", Out::E(ls.iter().copied().sum::<F>().to_c()), want.clone()));
-                out.push(eq("sum_ref", Out::E(ls.iter().sum::<F>().to_c()), want));
+                match probed(|| <F as std::iter::Sum<&F>>::sum(Probe::new(&ls))) {
+                    Ok(v) => out.push(eq("sum_ref", Out::E(v.to_c()), want)),
+                    Err(()) => out.push(nonterminating("sum_ref")),
+                }
             } else {
                 let want = Out::E(xs.iter().fold(rf.one(), |acc, x| rf.mul(&acc, x)));
                 out.push(eq("product", Out::E(ls.iter().copied().product::<F>().to_c()), want.clone()));
-                out.push(eq("product_ref", Out::E(ls.iter().product::<F>().to_c()), want));
+                match probed(|| <F as std::iter::Product<&F>>::product(Probe::new(&ls))) {
+                    Ok(v) => out.push(eq("product_ref", Out::E(v.to_c()), want)),
+                    Err(()) => out.push(nonterminating("product_ref")),
+                }
             }
         }
         "batch_invert" => {
@@ -1123,8 +1230,9 @@ fn exec_field<F: Lf>(op: &str, a: &[Arg]) -> Option<Vec<Cmp>> {
         "pow" => {
             let (x, e) = (a_el(a, 0), a_words(a, 1));
             let lx = F::from_c(x);
-            let want = Out::E(rf.pow(x, &words_to_big(e)));
-            out.push(eq("pow", Out::E(lx.pow(e).to_c()), want.clone()));
+            let want = rf.pow(x, &words_to_big(e));
+            el_cmp::<F>(&mut out, "pow", lx.pow(e), &want);
+            let want = Out::E(want);
             out.push(eq("pow_vartime", Out::E(lx.pow_vartime(e).to_c()), want.clone()));
             if let Some((p1, p2)) = F::inherent_pow(&lx, e) {
                 out.push(eq("inherent_pow", Out::E(p1.to_c()), want.clone()));
@@ -1182,7 +1290,8 @@ fn exec_field<F: Lf>(op: &str, a: &[Arg]) -> Option<Vec<Cmp>> {
             let f = rf.prime_field();
             let label = intern(format!("from_uniform_bytes{}", b.len()));
             if rf.degree() == 1 {
-                out.push(eq(label, Out::E(got), Out::E(vec![f.reduce_le_bytes(b)])));
+                let _ = got;
+                el_cmp::<F>(&mut out, label, F::uniform(b)?, &vec![f.reduce_le_bytes(b)]);
             } else {
                 // quadratic tower: each half reduces to one coefficient; the assignment of halves
                 // to coefficients is not specified anywhere, either order is accepted
@@ -1200,8 +1309,7 @@ fn exec_field<F: Lf>(op: &str, a: &[Arg]) -> Option<Vec<Cmp>> {
         }
         "from_raw" => {
             let w = a_words(a, 0);
-            let got = F::from_raw_limbs(w)?.to_c();
-            out.push(eq("from_raw", Out::E(got), Out::E(vec![words_to_big(w) % rf.p()])));
+            el_cmp::<F>(&mut out, "from_raw", F::from_raw_limbs(w)?, &vec![words_to_big(w) % rf.p()]);
         }
         "dec" => {
             let (w, b) = (a_words(a, 0), a_bytes(a, 1));
@@ -1280,10 +1388,11 @@ fn exec_field<F: Lf>(op: &str, a: &[Arg]) -> Option<Vec<Cmp>> {
                 return None;
             }
             let (r1, r2) = F::raw_from(&alias)?;
+            let eq_canonical = r1.map(|v| format!("decoded value == canonical element: {}", v == lx)).unwrap_or_default();
             out.push(judged(
                 "raw_checked/from_raw_bytes",
                 r1.is_none(),
-                Out::T(vec![Out::Y(alias.clone()), Out::O(r1.map(|v| v.to_c()))]),
+                Out::T(vec![Out::Y(alias.clone()), Out::O(r1.map(|v| v.to_c())), Out::S(eq_canonical)]),
                 "None: the internal integer is >= p (second encoding of the same residue)",
             ));
             out.push(judged(
@@ -1863,9 +1972,8 @@ fn run_case(part: &mut Part, ty: &Ty, op: &'static str, classes: (&'static str, 
                 w["library"] = c.got.j();
                 w["reference"] = c.want.j();
                 if still {
-                    let kind = if c.label.starts_with("const/") { "wrong" } else { "mismatch" };
                     part.rep.violation(
-                        &format!("C10/{}/{}/{}@{}", ty.name, c.label, kind, ty.src),
+                        &format!("C10/{}/{}/{}@{}", ty.name, c.label, c.kind, ty.src),
                         &format!("{} {}: library {} ; reference {}", ty.name, c.label, short(&c.got.j()), short(&c.want.j())),
                         w,
                     );
@@ -1876,6 +1984,7 @@ fn run_case(part: &mut Part, ty: &Ty, op: &'static str, classes: (&'static str, 
         }
         Err(p) => {
             part.rep.eval();
+            let exec_op = op;
             if is_harness_file(&p.file) {
                 part.bump(ty.name, intern(format!("{op}:harness_panic")));
                 part.rep.inconclusive(&format!("harness panic in {} {op}: {} at {}", ty.name, p.message, p.location));
@@ -1886,10 +1995,19 @@ fn run_case(part: &mut Part, ty: &Ty, op: &'static str, classes: (&'static str, 
                 part.bump(ty.name, intern(format!("{op}:declared_unimplemented")));
                 return;
             }
+            // refine the operation name by the codec / extra operation it addresses
+            let op: &'static str = match (op, args.first()) {
+                ("dec", Some(Arg::W(w))) | ("enc", Some(Arg::W(w))) => intern(format!("{op}/{}", ty.codecs[w[0] as usize].0)),
+                ("extra", _) => match args.get(1) {
+                    Some(Arg::W(w)) => ty.extras[w[0] as usize],
+                    _ => op,
+                },
+                _ => op,
+            };
             part.bump(ty.name, intern(format!("{op}:panic")));
             part.rep.nontrivial(&(ty.name, op, "panic", classes.0, classes.1));
-            let again = catch_any(|| (ty.exec)(op, args));
-            let mut w = witness(ty, op, classes, args);
+            let again = catch_any(|| (ty.exec)(exec_op, args));
+            let mut w = witness(ty, exec_op, classes, args);
             w["panic"] = json!({ "message": p.message, "location": p.location });
             match again {
                 Err(p2) if p2.message == p.message => part.rep.violation(
@@ -1922,6 +2040,8 @@ struct Plan {
     base: usize,
     /// cases per task
     chunk: usize,
+    /// keep every `thin`-th item in the unary / decoder / pattern sweeps
+    thin: usize,
     san: bool,
 }
 
@@ -2043,7 +2163,9 @@ fn small_list(fixed: &[(&'static str, El)], rf: &RefField) -> Vec<Vec<El>> {
     with_zeros.extend(nz.iter().cloned());
     with_zeros.insert(3.min(with_zeros.len()), rf.zero());
     with_zeros.push(rf.zero());
-    vec![vec![], vec![rf.zero()], vec![rf.one()], vec![rf.zero(), rf.zero()], take(3), take(9), nz, with_zeros]
+    let last = fixed.last().map(|(_, e)| e.clone()).unwrap_or_else(|| rf.one());
+    let top = vec![rf.one(), last, rf.from_int(&BigUint::from(2u32))];
+    vec![top, vec![], vec![rf.zero()], vec![rf.one()], vec![rf.zero(), rf.zero()], take(3), take(9), nz, with_zeros]
 }
 
 fn run_task(rep: &Report, task: &Task, plan: Plan) -> Part {
@@ -2069,7 +2191,7 @@ fn run_task(rep: &Report, task: &Task, plan: Plan) -> Part {
             }
         }
         Kind::FixedUnary => {
-            for (i, (ca, a)) in fixed.iter().enumerate() {
+            for (i, (ca, a)) in fixed.iter().enumerate().step_by(plan.thin) {
                 for op in UNARY_OPS {
                     if op == "legendre" && !ty.has_legendre {
                         continue;
@@ -2152,10 +2274,10 @@ fn run_task(rep: &Report, task: &Task, plan: Plan) -> Part {
                 if ty.zeta {
                     run_case(&mut part, ty, "const_zeta", ("-", "-"), &[]);
                 }
-                for (c, b) in decoder_inputs(p, ty.repr_len, 1, ty.repr_le) {
+                for (c, b) in decoder_inputs(p, ty.repr_len, 1, ty.repr_le).into_iter().step_by(plan.thin) {
                     run_case(&mut part, ty, "from_repr", (c, "-"), &[Arg::B(b)]);
                 }
-                for w in [0u64, 1, 2, u64::MAX, u64::MAX - 1, 1 << 63, 0xffff_ffff, 1 << 32] {
+                for w in [0u64, u64::MAX, 1, 2, u64::MAX - 1, 1 << 63, 0xffff_ffff, 1 << 32].into_iter().take(if plan.san { 2 } else { 8 }) {
                     run_case(&mut part, ty, "from_u64", ("-", "-"), &[Arg::W(vec![w])]);
                     for hi in [0u64, 1, u64::MAX, 1 << 63] {
                         run_case(&mut part, ty, "from_u128", ("-", "-"), &[Arg::W(vec![w, hi])]);
@@ -2169,12 +2291,12 @@ fn run_task(rep: &Report, task: &Task, plan: Plan) -> Part {
                 if !c.2 {
                     continue;
                 }
-                for (cl, b) in decoder_inputs(p, c.1, c.5, c.4) {
+                for (cl, b) in decoder_inputs(p, c.1, c.5, c.4).into_iter().step_by(plan.thin) {
                     run_case(&mut part, ty, "dec", (cl, "-"), &[Arg::W(vec![ci as u64]), Arg::B(b)]);
                 }
             }
             for len in ty.uniform_lens {
-                for (cl, b) in uniform_inputs(p, *len) {
+                for (cl, b) in uniform_inputs(p, *len).into_iter().step_by(plan.thin) {
                     run_case(&mut part, ty, "uniform", (cl, "-"), &[Arg::B(b)]);
                 }
             }
@@ -2189,11 +2311,11 @@ fn run_task(rep: &Report, task: &Task, plan: Plan) -> Part {
                     l[i] ^= 1 << 63;
                     pats.push(l);
                 }
-                for l in pats {
+                for l in pats.into_iter().step_by(plan.thin) {
                     run_case(&mut part, ty, "from_raw", ("-", "-"), &[Arg::W(l)]);
                 }
             }
-            for l in small_list(&fixed, rf) {
+            for l in small_list(&fixed, rf).into_iter().step_by(if plan.san { 2 } else { 1 }) {
                 for op in ["sum", "product", "batch_invert"] {
                     run_case(&mut part, ty, op, ("list", "-"), &[Arg::Es(l.clone())]);
                 }
@@ -2408,13 +2530,14 @@ fn main() {
     }
 
     let plan = if san {
-        Plan { cap: 1, stride: 7, base: 3, chunk: 1000, san: true }
+        Plan { cap: 1, stride: 29, base: 2, chunk: 1000, thin: 4, san: true }
     } else {
         Plan {
             cap: usize::MAX,
             stride: 1,
             base: ctx.tier.pick(60, 40_000),
             chunk: 2_000,
+            thin: 1,
             san: false,
         }
     };
@@ -2435,6 +2558,15 @@ fn main() {
         rep.merge(part.rep);
     }
     k256_documented_contract(&mut rep);
+    // one witness per signature is enough
+    {
+        let mut seen = std::collections::BTreeSet::new();
+        rep.violations.retain(|v| seen.insert(v.signature.clone()));
+        let dup: Vec<String> = rep.counters.keys().filter(|k| k.starts_with("violations_suppressed_dup")).cloned().collect();
+        for k in dup {
+            rep.counters.remove(&k);
+        }
+    }
 
     // every planned (type, core operation) must have been compared at least once
     for ty in &types {
